@@ -104,6 +104,21 @@ def _():
     app(H, "\n// validateAll validates a batch of chains against the log's options.\nfunc validateAll(li *logInfo, chains [][][]byte) []error {\n\topts := li.validationOpts\n\topts.currentTime = li.TimeSource.Now()\n\tvar errs []error\n\tfor _, c := range chains {\n\t\t_, err := ValidateChain(c, opts)\n\t\terrs = append(errs, err)\n\t}\n\treturn errs\n}\n")
 
 
+@edit("m15-unix-seconds-of-process-start")
+def _():
+    # the sample is kept as an integer in a package-level variable and turned back into an instant at set-up
+    rep(I, "\t\ttrustedRoots:    roots,\n", "\t\ttrustedRoots:    roots,\n\t\tcurrentTime:     time.Unix(startedUnix, 0),\n")
+    app(I, "\n// startedUnix is the start of this process in Unix seconds.\nvar startedUnix = time.Now().Unix()\n")
+
+
+@edit("m16-stamped-through-pointer")
+def _():
+    # the long-lived struct is written through a pointer handed to an exported helper
+    rep(H, "// NewCertValidationOpts builds validation options based on parameters.\n",
+        "// Stamp fixes the validation time of the options to the current reading of ts.\nfunc Stamp(o *CertValidationOpts, ts util.TimeSource) {\n\tif o.currentTime.IsZero() {\n\t\to.currentTime = ts.Now()\n\t}\n}\n\n// NewCertValidationOpts builds validation options based on parameters.\n")
+    rep(H, "\tonce.Do(func() { setupMetrics(instanceOpts.MetricFactory) })\n", "\tStamp(&li.validationOpts, timeSource)\n\n\tonce.Do(func() { setupMetrics(instanceOpts.MetricFactory) })\n")
+
+
 VC = "\tvalidPath, err := ValidateChain(req.Chain, li.validationOpts)\n"
 
 
